@@ -127,6 +127,9 @@ fn reference_sample(k: usize, n: usize, r: &mut FastRng, out: &mut Vec<u32>) {
 enum RngKind {
     Fast,
     ChaCha,
+    /// FastRng; the sampler first sees 5k+3 other items and is cleared (a cleared sampler must
+    /// sample the next stream like a fresh one)
+    FastAfterClear,
 }
 
 struct CellCounts {
@@ -154,10 +157,16 @@ fn run_trials(ctx: &Ctx, k: usize, n: usize, trials: usize, stage: u64, rk: RngK
         for t in (ci * per)..((ci + 1) * per).min(trials) {
             let seed = ctx.sub_seed(&[stage, k as u64, n as u64, t as u64, rk as u64]);
             let rng = match rk {
-                RngKind::Fast => CtlRng::fast(seed),
+                RngKind::Fast | RngKind::FastAfterClear => CtlRng::fast(seed),
                 RngKind::ChaCha => CtlRng::chacha(seed),
             };
             let mut s: ReservoirSampling<u32, CtlRng> = ReservoirSampling::new(k, rng);
+            if rk == RngKind::FastAfterClear {
+                for p in 0..(5 * k + 3) as u32 {
+                    s.add(u32::MAX - p);
+                }
+                s.clear();
+            }
             for p in 0..n as u32 {
                 s.add(p);
             }
@@ -288,17 +297,20 @@ pub fn run(ctx: &Ctx) -> Report {
     let mut worst = [0f64; 3];
     for &k in &KS {
         for n in ns_for(k, ctx.tier) {
-            for rk in [RngKind::Fast, RngKind::ChaCha] {
+            for rk in [RngKind::Fast, RngKind::ChaCha, RngKind::FastAfterClear] {
                 if rk == RngKind::ChaCha && !(k == 8 || (k == 2 && n <= 10)) {
                     continue;
                 }
-                let label = format!("k={}/n={}{}", k, n, if rk == RngKind::ChaCha { "/chacha" } else { "" });
+                if rk == RngKind::FastAfterClear && !((k == 8 || k == 3) && n <= 10 * k) {
+                    continue;
+                }
+                let label = format!("k={}/n={}{}", k, n, match rk { RngKind::ChaCha => "/chacha", RngKind::FastAfterClear => "/after-clear", RngKind::Fast => "" });
                 if let Some(o) = &ctx.only {
                     if !label.contains(o.as_str()) {
                         continue;
                     }
                 }
-                let b = if rk == RngKind::ChaCha { budget / 8.0 } else { budget };
+                let b = if rk != RngKind::Fast { budget / 8.0 } else { budget };
                 let trials = if n >= 10_000_000 { ctx.tier.pick(8, 40) } else { ((b / n as f64) as usize).clamp(2000, 4_000_000) };
                 let (bounds, names) = bins(k, n);
                 let mut counts = run_trials(ctx, k, n, trials, 1, rk, &bounds);
